@@ -1326,6 +1326,31 @@ void GenWrap(vh::Rng& rng, Case& k)
     SetSpent(k);
 }
 
+// table part of family wrap: opcode value `op` as the first operation of a tapscript leaf (classification OP_SUCCESSx / not)
+void GenTapOp(vh::Rng& rng, Case& k, unsigned op)
+{
+    k.fam = "wrap";
+    k.note = "p2tr-op" + std::to_string(op);
+    MakeTx(rng, k);
+    k.flags = RandFlags(rng);
+    k.flags |= script_verify_flags{SCRIPT_VERIFY_P2SH} | SCRIPT_VERIFY_WITNESS | SCRIPT_VERIFY_TAPROOT;
+    if (rng.chance(3, 4)) k.flags &= ~SCRIPT_VERIFY_DISCOURAGE_OP_SUCCESS;
+    SB prog;
+    if (rng.coin()) prog.op(0x00).op(0x63); // dead branch
+    if (op <= 0x4e) prog.push(rng.bytes(op < 0x4c ? op : 3), op < 0x4c ? 0 : op == 0x4c ? 1 : op == 0x4d ? 2 : 4);
+    else prog.op(op);
+    if (prog.b[0] == 0x00 && prog.b.size() > 1 && prog.b[1] == 0x63) prog.op(0x68);
+    prog.op(0x51);
+    k.wit.push_back(NumEnc(rng.range(0, 5)));
+    k.wit.push_back(NumEnc(rng.range(0, 5)));
+    const CKey key = RandKey(rng);
+    Tap t = MakeTap(rng, XOnlyPubKey{key.GetPubKey()}, &prog.b, 0xc0, rng.below(3));
+    k.wit.push_back(prog.b);
+    k.wit.push_back(t.control);
+    k.spk = t.spk;
+    SetSpent(k);
+}
+
 // ---------------------------------------------------------------------------------------------------------------
 // family lock: CHECKLOCKTIMEVERIFY / CHECKSEQUENCEVERIFY against transaction fields at and around every boundary
 
@@ -1862,8 +1887,10 @@ VH_CMD(script)
         vh::set_case(c);
         vh::Rng rng(args.seed, c);
         Case k;
-        // boundary table first: cases 0..511 run every opcode value twice (when the op1 family is enabled), then random
+        // boundary tables first: cases 0..511 run every opcode value twice under EvalScript, cases 512..1023 put every opcode
+        // value twice into a tapscript leaf (OP_SUCCESSx classification), then random
         if (c < 512 && w[0]) GenOp1(rng, k, static_cast<int>(c & 0xff));
+        else if (c >= 512 && c < 1024 && w[5]) GenTapOp(rng, k, static_cast<unsigned>(c & 0xff));
         else FAMS[rng.weighted(w)].fn(rng, k);
         RunCase(c, k);
     }
